@@ -288,6 +288,9 @@ def build() -> Check:
             st = t.value.items.get("Status") if hasattr(t.value, "items") else None
             if not (isinstance(st, Const) and st.value == "FAILED"):
                 bad.append((f"after a checkpoint failure the invocation answers {st.key() if st else t.value.key()}", t))
+        if t.outcome == "raise" and (t.exc_class() or "").rstrip("*") == BTE_FQ:
+            bad.append(("a checkpoint failure leaves the wrapper as the BackgroundThreadError envelope itself: the error's classification (raise for a Lambda retry / "
+                        "answer FAILED) is never consulted", t))
         if any(e.kind == "CKPT" for e in t.events[t.events.index(res[0]):]) and res and res[0].data.get("outcome") == BTE_FQ:
             bad.append(("a checkpoint is attempted after the background failure was reported", t))
     ck.floor("wrapper_bte_traces", n_bte, 1)
@@ -322,6 +325,47 @@ def build() -> Check:
                           "handed over (no stop + join before the look): a call that fails a moment later goes unnoticed", t))
     ck.floor("wrapper_verdict_paths", n_verdicts, 2)
     ck.ob("R5.verdict-consults-failure-state", fn_construct(wrapper), not bad_v, (bad_v[0][0]) if bad_v else f"{n_verdicts} paths")
+
+    # R5c ... and the same when the handler ends with an error of its own (h2_C06 #1): "raising for Lambda retry or returning FAILED according to the
+    # error's classification" is about the CHECKPOINT error. An answer FAILED(<handler's error>) is terminal for the execution although the failed
+    # call may be of the class that must be raised for a retry; re-raising the handler's InvocationError retries although the call's class says FAILED.
+    bad_e = []
+    n_err = 0
+    for t in wt:
+        res = [i for i, e in enumerate(t.events) if e.kind == "RESULT"]
+        if not res:
+            continue  # the handler never ran (malformed payload)
+        r0 = t.events[res[0]]
+        oc = str(r0.data.get("outcome") or "")
+        if oc in ("return", "ok", "") or oc == BTE_FQ or oc.endswith("CheckpointError") or oc.endswith("SuspendExecution"):
+            continue  # verdict paths are judged above; a failure that reached the handler's thread is judged by R5.wrapper-outcome
+        after = t.events[res[0]:]
+        if any(e.kind == "CKPT" and e.data.get("outcome") not in ("ok", None) for e in after):
+            continue  # the answer is given for a failing call of the wrapper itself
+        refined = {k.rsplit(" isa ", 1)[-1] for k, v in t.pc if " isa " in str(k) and v is True}
+        if refined & {"BackgroundThreadError", "CheckpointError", "SuspendExecution"}:
+            continue  # "some (Base)Exception" refined on this path to the background failure / a checkpoint error / a suspension: judged by the rules above
+        raised = (t.exc_class() or "").rstrip("*") if t.outcome == "raise" else ""
+        if t.outcome == "raise" and (any(str(k).endswith(" isa Exception") and v is False for k, v in t.pc)
+                                     or (raised and raised != "builtins.BaseException" and not prog.is_subclass(raised, "builtins.Exception"))):
+            continue  # a BaseException that is no Exception passes through the wrapper untouched (C18's known finding); it is raised, i.e. the invocation is retried
+        n_err += 1
+        synced = any(e.kind == "CKPT" and e.data.get("sync") and e.data.get("outcome") == "ok" for e in after)
+        looks = [i for i, e in enumerate(after) if e.kind == "FAILCHECK"]
+        joins = [i for i, e in enumerate(after) if e.kind == "BG_JOIN" and e.data.get("after_stop")]
+        if synced:
+            continue
+        what = (f"returns {t.value.items.get('Status').key() if hasattr(t.value, 'items') and t.value.items.get('Status') is not None else t.value.key()}"
+                if t.outcome == "return" else f"raises {t.exc_class()}")
+        if not looks:
+            bad_e.append((f"the handler ended with {oc.rsplit('.', 1)[-1]} and the invocation {what} without having looked at the checkpoint failure state: a failed "
+                          "call that carried only fire-and-forget updates (or the refresh checkpoint of a resume timer) is never classified - the execution is "
+                          "FAILED with the handler's error although the checkpoint error demands a Lambda retry (or the other way round)", t))
+        elif not joins or min(joins) > max(looks):
+            bad_e.append((f"the handler ended with {oc.rsplit('.', 1)[-1]} and the invocation {what} after looking at the failure state while the background loop may "
+                          "still be sending (no stop + join before the look)", t))
+    ck.floor("wrapper_error_answer_paths", n_err, 3)
+    ck.ob("R5.error-answer-consults-failure-state", fn_construct(wrapper), not bad_e, (bad_e[0][0] + ": " + trace_sig(bad_e[0][1])[-260:]) if bad_e else f"{n_err} paths")
 
     # ---- R6 executors: a failed checkpoint ends the operation with that failure ----------------------
     n = 0
